@@ -107,7 +107,54 @@ func main() {
 		}
 	}
 	expl := spec.Explanation + " NOT DECIDED: " + spec.NotDecided
-	os.Exit(c.finish(*verifDir, seed, start, expl, commonAssumptions, nil))
+	extra := map[string]interface{}{}
+	if *tier == "thorough" {
+		// (a) fault-injection build configuration
+		clearCaches()
+		PD, err := loadProg(*repo, "debug", nil)
+		if err != nil {
+			c.Undecided("CONFIG-debug", "load -tags debug", "", "the fault-injection build configuration does not load: "+firstLines(err.Error(), 3))
+		} else {
+			cd := newCtx(PD, *prop, *tier, findings)
+			for _, r := range spec.Rules {
+				runRule(cd, r)
+			}
+			n, bad := 0, 0
+			for _, o := range cd.Obls {
+				if debugInsensitive(o.Rule) {
+					n++
+					if o.Status == "violated" || o.Status == "undecided" {
+						bad++
+						o.Rule = o.Rule + "[tags=debug]"
+						c.add(o)
+					}
+				}
+			}
+			extra["debug_config"] = map[string]interface{}{"tags": "debug", "obligations_rechecked": n, "violations": bad, "functions": len(PD.AllFns),
+				"skipped_rules": "C14-FATAL, C14-BLOCK, C14-ASSERT, C08-DUR: the fault-injection build may panic / sleep / block by design"}
+		}
+		clearCaches()
+		// (b) seeded self-test (evidence only)
+		st := runSelfTest(*repo, *verifDir, *prop, spec, findings)
+		extra["selftest"] = st
+		fmt.Printf("self-test: %d seeded changes applied, %d detected, %d missed, %d skipped\n", st.Applied, st.Detected, len(st.Missed), len(st.Skipped))
+		for _, d := range st.Details {
+			fmt.Println("  " + d)
+		}
+		for _, d := range st.Missed {
+			fmt.Println("  MISSED (evidence only): " + d)
+		}
+	}
+	os.Exit(c.finish(*verifDir, seed, start, expl, commonAssumptions, extra))
+}
+
+// debugInsensitive: rules whose verdict does not depend on fault injection being inert.
+func debugInsensitive(rule string) bool {
+	switch {
+	case strings.HasPrefix(rule, "C14-FATAL"), strings.HasPrefix(rule, "C14-BLOCK"), strings.HasPrefix(rule, "C14-ASSERT"), strings.HasPrefix(rule, "C08-DUR"):
+		return false
+	}
+	return true
 }
 
 func runRule(c *Ctx, r ruleFn) {
